@@ -22,6 +22,8 @@ type seed struct {
 }
 
 var seeds = []seed{
+	{"roaring64 Select cuts its running index to 32 bits before comparing it with the bucket size", "U12", "roaring64/roaring64.go", "\t\tif bitmapSize := c.GetCardinality(); remaining >= bitmapSize {\n\t\t\tremaining -= bitmapSize\n\t\t} else {\n", "\t\tif _, err := c.Select(uint32(remaining)); err != nil {\n\t\t\tremaining -= c.GetCardinality()\n\t\t} else {\n", "Select|value cut to 32 bits"},
+	{"previousAbsentValue inverts the word after shifting it up", "U4", "bitmapcontainer.go", "\tw := ^bc.bitmap[x] << (63 - uint(target%64))\n", "\tw := ^(bc.bitmap[x] << (63 - uint(target%64)))\n", "previousAbsentValue|complement of a shifted word"},
 	{"RemoveRange lets an empty range ending at 0 through to end-1", "U11", "roaring.go", "func (rb *Bitmap) RemoveRange(rangeStart, rangeEnd uint64) {\n\tif rangeStart >= rangeEnd {\n", "func (rb *Bitmap) RemoveRange(rangeStart, rangeEnd uint64) {\n\tif rangeStart > rangeEnd {\n", "Bitmap).RemoveRange|<uint64> - 1"},
 	{"Rank asks the first chunk that is not below x about the low half of x", "LOW1", "roaring.go", "\t\tif key > highbits(x) {\n\t\t\treturn size\n\t\t}\n\t\tif key < highbits(x) {\n\t\t\tsize += uint64(rb.highlowcontainer.getContainerAtIndex(i).getCardinality())\n", "\t\tif key < highbits(x) {\n\t\t\tsize += uint64(rb.highlowcontainer.getContainerAtIndex(i).getCardinality())\n", "Bitmap).Rank|low half"},
 	{"the ParOr worker hands the range bounds to the in-place merge in exchanged order", "SW1", "parallel.go", "\t\t\t\tra = lazyIOrOnRange(ra, &b.highlowcontainer, spec.start, spec.end)\n", "\t\t\t\tra = lazyIOrOnRange(ra, &b.highlowcontainer, spec.end, spec.start)\n", "ParOr|call of lazyIOrOnRange"},
